@@ -80,7 +80,8 @@ def run(R):
             "From Sekai Require Import Base.Prelude.\nDefinition durations_error_returned : bool := false.\n"
             "Definition router_apply_on_cache_written_iff_ok : bool := true.\n"
             "Definition quorum_error_panics_flag : bool := false.\nDefinition dynamic_veto_from_allowed : bool := true.\n"
-            "Definition lifecycle_writers : list string := [].\nDefinition handler_error_shapes : list (string * list string) := [].\n")
+            "Definition lifecycle_writers : list string := [].\nDefinition handler_error_shapes : list (string * list string) := [].\n"
+            "Definition dynamic_param_sources : list (string * list string) := [].\n")
     R.coq_files(FILES)
     R.coq_property()
     R.audit()
